@@ -24,7 +24,7 @@ THEOREMS = {
             "Lemmas.Rev.detect_ok_of_ranked", "Lemmas.Rev.mem_closureOf_iff"],
     "C16": ["C16.full_id", "C16.plain_sound", "C16.prefix_unique_partial", "C16.prefix_unique_counterexample",
             "C16.symbolic_heads", "C16.symbolic_base", "C16.walk_up_exact", "C16.walk_down_exact", "C16.walk_up_history", "C16.walk_down_history", "C16.stepsDown_iff", "C16.load_ids_legal", "C16.walkStep_up", "C16.walkStep_down", "Lemmas.Rev.revisionForIdent_sound",
-            "C16.rel_up_id", "C16.rel_up_row", "C16.rel_down_id", "C16.rel_dgrade_id", "C16.rel_dgrade_row", "C16.self_qualified", "C16.stepsDown_base_iff", "C16.branch_head", "C16.branch_head_ambiguous", "C16.branch_heads", "C16.sharesLineage_history", "C16.branch_heads_history", "C16.branch_head_history", "C16.rel_up_empty", "C16.walk_up_from_base"],
+            "C16.rel_up_id", "C16.rel_up_row", "C16.rel_down_id", "C16.rel_dgrade_id", "C16.rel_dgrade_row", "C16.self_qualified", "C16.stepsDown_base_iff", "C16.branch_head", "C16.branch_head_ambiguous", "C16.branch_heads", "C16.sharesLineage_history", "C16.branch_heads_history", "C16.branch_head_history", "C16.rel_up_empty", "C16.walk_up_from_base", "C16.rel_up_empty_label"],
 }
 PARTIAL = {
     "C05": {
@@ -33,7 +33,7 @@ PARTIAL = {
     },
     "C16": {
         "C16.prefix_unique_partial": "full prefix rule needs every revision id to have >=4 characters (known finding F13: shorter ids are invisible to the partial lookup); C16.prefix_unique_counterexample is the kernel-checked witness",
-        "relative and branch-qualified forms": "id+/-N, +/-N, label@... are compared with the real code and judged by the Lean oracles Spec.Rev.stepsDown / downLineage / refTargets on the implementation's answers; the unbounded theorems are C16.walk_up_exact / C16.walk_down_exact (a relative walk that returns a revision returns one exactly N links away along single-child / single-down-revision links; base only when exactly N-1 links lead to a root); and, end to end through _parse_upgrade_target / _parse_downgrade_target, C16.rel_up_id (rev+N), rel_up_row (+N from the single current row), rel_up_empty (+N on an empty table: the history has exactly one revision without down_revision - dependent roots count - and the answer lies N-1 links above it), rel_down_id (rev-N as an upgrade target), rel_dgrade_id (rev-N as a downgrade target, incl. base), rel_dgrade_row (bare -N: counts from the first row and is restricted to its branch) - each for every target string the pattern model matchRelative splits that way; C16.branch_head (`<label or id>@head` = the single head sharing the branch's down_revision lineage, none when there is none, refused when there are several: branch_head_ambiguous) and C16.branch_heads (`<label or id>@heads` = exactly the heads sharing that lineage); C16.sharesLineage_history identifies the lineage test of the loaded map with ancestor-or-descendant along the down_revision links written in the files, so branch_head_history / branch_heads_history state both spellings against the history itself, as Spec.Rev.refTargets does; label@+N / label@-N (start at the branch tip: Spec.Rev.relUpStarts), +N with several rows, and the regular expression itself are tied by correspondence + oracle only",
+        "relative and branch-qualified forms": "id+/-N, +/-N, label@... are compared with the real code and judged by the Lean oracles Spec.Rev.stepsDown / downLineage / refTargets on the implementation's answers; the unbounded theorems are C16.walk_up_exact / C16.walk_down_exact (a relative walk that returns a revision returns one exactly N links away along single-child / single-down-revision links; base only when exactly N-1 links lead to a root); and, end to end through _parse_upgrade_target / _parse_downgrade_target, C16.rel_up_id (rev+N), rel_up_row (+N from the single current row), rel_up_empty and rel_up_empty_label (+N and <branch>@+N on an empty table: exactly one revision without down_revision - dependent roots count; on the branch's lineage when one is named - and the answer lies N-1 links above it), rel_down_id (rev-N as an upgrade target), rel_dgrade_id (rev-N as a downgrade target, incl. base), rel_dgrade_row (bare -N: counts from the first row and is restricted to its branch) - each for every target string the pattern model matchRelative splits that way; C16.branch_head (`<label or id>@head` = the single head sharing the branch's down_revision lineage, none when there is none, refused when there are several: branch_head_ambiguous) and C16.branch_heads (`<label or id>@heads` = exactly the heads sharing that lineage); C16.sharesLineage_history identifies the lineage test of the loaded map with ancestor-or-descendant along the down_revision links written in the files, so branch_head_history / branch_heads_history state both spellings against the history itself, as Spec.Rev.refTargets does; label@+N / label@-N (start at the branch tip: Spec.Rev.relUpStarts), +N with several rows, and the regular expression itself are tied by correspondence + oracle only",
     },
 }
 RULE = (
